@@ -15,6 +15,8 @@
 #include <fstream>
 #include <iostream>
 
+#include "../common/verif_hooks.h"
+
 template <typename T>
 class DiagonalSolver
 {
@@ -142,6 +144,7 @@ const T& DiagonalSolver<T>::diagonal(const int index) const
 {
     assert(index >= 0);
     assert(index < this->matrix_dimension_);
+    VERIF_TOUCH(&this->diagonal_values_[index], false);
     return this->diagonal_values_[index];
 }
 template <typename T>
@@ -149,6 +152,7 @@ T& DiagonalSolver<T>::diagonal(const int index)
 {
     assert(index >= 0);
     assert(index < this->matrix_dimension_);
+    VERIF_TOUCH(&this->diagonal_values_[index], true);
     return this->diagonal_values_[index];
 }
 
@@ -159,6 +163,7 @@ T& DiagonalSolver<T>::diagonal(const int index)
 template <typename T>
 void DiagonalSolver<T>::solveInPlace(T* sol_rhs) const
 {
+    VERIF_RANGE(sol_rhs, matrix_dimension_, true);
     for (int i = 0; i < matrix_dimension_; i++) {
         sol_rhs[i] /= diagonal(i);
     }
